@@ -503,3 +503,61 @@ mod if_std {
 
 #[cfg(feature = "std")]
 pub use self::if_std::*;
+
+#[cfg(futures_intrusive_verif)]
+mod verif_hooks {
+    use super::*;
+    use crate::verif::{waker_id, NodeInfo, Snapshot};
+
+    fn node_info(node: &ListNode<WaitQueueEntry>) -> NodeInfo {
+        NodeInfo {
+            addr: node as *const _ as usize,
+            state: match node.state {
+                PollState::New => 0,
+                PollState::Waiting => 1,
+                PollState::Notified => 2,
+                PollState::Done => 3,
+            },
+            waker: waker_id(&node.task),
+            extra: 0,
+            links: node.verif_links(),
+        }
+    }
+
+    impl<MutexType: RawMutex, T> GenericMutex<MutexType, T> {
+        /// Verification hook: read-only snapshot of the internal state
+        pub fn verif_snapshot(&self) -> Snapshot {
+            let state = self.state.lock();
+            let mut waiters = alloc::vec::Vec::new();
+            state
+                .waiters
+                .verif_for_each_oldest_first(1 << 16, &mut |n| {
+                    waiters.push(node_info(n))
+                });
+            let mut newest_first = alloc::vec::Vec::new();
+            state
+                .waiters
+                .verif_for_each_newest_first(1 << 16, &mut |n| {
+                    newest_first.push(node_info(n))
+                });
+            Snapshot {
+                flags: alloc::vec![
+                    ("is_fair", state.is_fair as u64),
+                    ("is_locked", state.is_locked as u64),
+                ],
+                queues: alloc::vec![
+                    ("waiters", waiters),
+                    ("waiters_rev", newest_first)
+                ],
+            }
+        }
+    }
+
+    impl<'a, MutexType: RawMutex, T> GenericMutexLockFuture<'a, MutexType, T> {
+        /// Verification hook: the futures own wait node
+        pub fn verif_node(&self) -> NodeInfo {
+            let _guard = self.mutex.map(|m| m.state.lock());
+            node_info(&self.wait_node)
+        }
+    }
+}
